@@ -215,6 +215,9 @@ func CoerceToVector(arg Object, mods ...Object) (result Object) {
 		coerceNotPossible(ta, "vector")
 	}
 	if 0 < len(mods) {
+		if result == nil { // the empty list: an empty vector takes the element type and is checked for the length
+			result = NewVector(0, TrueSymbol, nil, List{}, true)
+		}
 		vl := result.(VectorLike)
 		if mods[0] != starSym {
 			vl.SetElementType(mods[0])
